@@ -3,6 +3,7 @@
 //! trusted: Assembler::{insert,clear,reinit,bytes_read,new} are an opaque contract boundary (real Assembler only has a bounded stand-in)
 #![allow(unused_imports, dead_code, non_camel_case_types, non_snake_case, unused_variables, unused_mut, unused_assignments)]
 use vstd::prelude::*;
+use std::mem;
 verus! {
 global size_of usize == 8;
 pub mod shims {
@@ -10,6 +11,8 @@ use super::*;
 #[verifier::external_body] pub struct Bytes { inner: Vec<u8> }
 impl View for Bytes { type V = Seq<u8>; uninterp spec fn view(&self) -> Seq<u8>; }
 impl Bytes { #[verifier::external_body] pub fn len(&self) -> (r: usize) ensures r == self@.len() { unimplemented!() } }
+pub assume_specification<T> [std::mem::replace] (dest: &mut T, src: T) -> (r: T)
+    ensures r == *old(dest), *final(dest) == src;
 pub assume_specification [u64::pow] (b: u64, e: u32) -> (r: u64)
     ensures (b == 2 && e == 62) ==> r == 0x4000_0000_0000_0000u64;
 #[derive(Copy, Clone, PartialEq, Eq)] pub struct VarInt(pub u64);
@@ -28,17 +31,38 @@ impl TransportError {
 pub struct TooManyChunks;
 pub struct ClosedStream { pub _private: () }
 pub struct ShouldTransmit(pub bool);
-/// opaque contract boundary (bounded Kani stand-in covers the real thing)
+#[verifier::external_body] pub struct Retransmits { x: u8 }
+/// opaque here (its arithmetic is verified in unit streams_state): freeing a receive half
+#[verifier::external_body] pub struct StreamsState { x: u8 }
+impl StreamsState {
+    pub uninterp spec fn freed_count(&self) -> nat;
+    #[verifier::external_body] pub fn stream_recv_freed(&mut self, id: StreamId, recv: super::code::StreamRecv)
+        ensures final(self).freed_count() == old(self).freed_count() + 1 { unimplemented!() }
+}
+/// opaque contract boundary (the real Assembler only has bounded stand-ins and one Kani obligation)
 #[verifier::external_body] pub struct Assembler { x: u8 }
 impl Assembler {
     pub uninterp spec fn bytes_read_spec(&self) -> u64;
-    #[verifier::external_body] pub fn new() -> (r: Self) ensures r.bytes_read_spec() == 0 { unimplemented!() }
-    #[verifier::external_body] pub fn reinit(&mut self) ensures final(self).bytes_read_spec() == 0 { unimplemented!() }
-    #[verifier::external_body] pub fn clear(&mut self) ensures final(self).bytes_read_spec() == old(self).bytes_read_spec() { unimplemented!() }
+    /// highest stream offset ever inserted (Assembler::end)
+    pub uninterp spec fn end_spec(&self) -> u64;
+    /// nothing buffered
+    pub uninterp spec fn empty_spec(&self) -> bool;
+    #[verifier::external_body] pub fn new() -> (r: Self) ensures r.bytes_read_spec() == 0, r.end_spec() == 0, r.empty_spec() { unimplemented!() }
+    #[verifier::external_body] pub fn reinit(&mut self) ensures final(self).bytes_read_spec() == 0, final(self).end_spec() == 0, final(self).empty_spec() { unimplemented!() }
+    #[verifier::external_body] pub fn clear(&mut self) ensures final(self).bytes_read_spec() == old(self).bytes_read_spec(), final(self).end_spec() == old(self).end_spec(), final(self).empty_spec() { unimplemented!() }
     #[verifier::external_body] pub fn bytes_read(&self) -> (r: u64) ensures r == self.bytes_read_spec() { unimplemented!() }
+    /// a read hands out at most max_length bytes of data that was inserted (so never beyond `end`), advances bytes_read by exactly
+    /// what it hands out, and hands out nothing when nothing is buffered
+    #[verifier::external_body] pub fn read(&mut self, max_length: usize, ordered: bool) -> (r: Option<super::code::Chunk>)
+        requires old(self).bytes_read_spec() <= old(self).end_spec()
+        ensures final(self).end_spec() == old(self).end_spec(), final(self).bytes_read_spec() <= final(self).end_spec(),
+            old(self).empty_spec() ==> r.is_none() && final(self).empty_spec(),
+            match r { Some(c) => c.bytes@.len() <= max_length && final(self).bytes_read_spec() == old(self).bytes_read_spec() + c.bytes@.len(),
+                      None => final(self).bytes_read_spec() == old(self).bytes_read_spec() } { unimplemented!() }
     #[verifier::external_body] pub fn insert(&mut self, offset: u64, bytes: Bytes, allocation_size: usize) -> (r: Result<(), TooManyChunks>)
         requires offset + bytes@.len() <= u64::MAX
-        ensures final(self).bytes_read_spec() == old(self).bytes_read_spec() { unimplemented!() }
+        ensures final(self).bytes_read_spec() == old(self).bytes_read_spec(),
+            final(self).end_spec() == (if offset + bytes@.len() > old(self).end_spec() { (offset + bytes@.len()) as u64 } else { old(self).end_spec() }) { unimplemented!() }
 }
 }
 pub mod code {
@@ -49,6 +73,20 @@ use super::*; use super::shims::*;
 //@ end
 //@ extract quinn-proto/src/connection/streams/recv.rs :: enum RecvState
 //@ derive Copy Clone
+//@ end
+//@ extract quinn-proto/src/connection/assembler.rs :: struct Chunk
+//@ derive
+//@ end
+//@ extract quinn-proto/src/connection/streams/state.rs :: enum StreamRecv
+//@ derive
+//@ end
+//@ extract quinn-proto/src/connection/streams/recv.rs :: enum ChunksState
+//@ derive
+//@ end
+//@ extract quinn-proto/src/connection/streams/recv.rs :: enum ReadError
+//@ derive
+//@ end
+//@ extract quinn-proto/src/connection/streams/recv.rs :: struct Chunks
 //@ end
 impl Default for RecvState {
 //@ extract quinn-proto/src/connection/streams/recv.rs :: impl Default for RecvState::fn default
@@ -63,7 +101,9 @@ impl Recv {
     }
     /// representation invariant: bytes_read <= end <= advertised limit < 2^62, and a known final size is never below data already received
     pub open spec fn wf(&self) -> bool {
-        &&& self.assembler.bytes_read_spec() <= self.end
+        &&& self.assembler.bytes_read_spec() <= self.assembler.end_spec()
+        &&& self.assembler.end_spec() <= self.end
+        &&& (self.state is ResetRecvd ==> self.assembler.empty_spec())
         &&& self.end <= self.sent_max_stream_data
         &&& self.sent_max_stream_data < 0x4000_0000_0000_0000
         &&& (self.final_size().is_some() ==> self.end <= self.final_size().unwrap() && self.final_size().unwrap() < 0x4000_0000_0000_0000)
@@ -92,6 +132,8 @@ impl Recv {
 //@ contract
         requires
             old(self).wf(),
+            // StreamsState::received drops frames for a stream that is no longer receiving before it gets here
+            old(self).state is Recv,
             frame.offset < 0x4000_0000_0000_0000, frame.data@.len() < 0x1_0000_0000,
             received <= max_data < 0x4000_0000_0000_0000,
         ensures
@@ -199,6 +241,43 @@ impl Recv {
             Ok(n) => offset <= self.sent_max_stream_data && received + n <= max_data && n == (if offset > self.end { offset - self.end } else { 0 }),
             Err(e) => e.code == Code::FLOW_CONTROL_ERROR && (offset > self.sent_max_stream_data || received + (if offset > self.end { offset - self.end } else { 0 }) > max_data),
         }
+//@ end
+}
+impl Chunk {
+//@ extract quinn-proto/src/connection/assembler.rs :: impl Chunk::fn new
+//@ ret r
+//@ contract
+        ensures r.offset == offset, r.bytes == bytes
+//@ end
+}
+impl<'a> Chunks<'a> {
+    pub open spec fn inv(&self) -> bool {
+        match self.state { ChunksState::Readable(rs) => rs.wf() && (rs.state is ResetRecvd ==> self.read == 0), _ => true }
+    }
+//@ extract quinn-proto/src/connection/streams/recv.rs :: impl Chunks<'a>::fn next
+//@ props C11 C01
+//@ ret res
+//@ contract
+        requires old(self).inv(), !(old(self).state is Finalized), old(self).read < 0x4000_0000_0000_0000, max_length < 0x1_0000_0000,
+        ensures
+            final(self).inv(),
+            match res {
+                Ok(Some(c)) => old(self).state is Readable && final(self).state is Readable && final(self).read == old(self).read + c.bytes@.len(),
+                // end of stream: only once, and only when the final size is known and every byte below it has been handed out
+                Ok(None) => final(self).state is Finished && (old(self).state is Finished || (old(self).state is Readable
+                    && old(self).state->Readable_0.state == (RecvState::Recv { size: Some(old(self).state->Readable_0.end) })
+                    && old(self).state->Readable_0.assembler.bytes_read_spec() == old(self).state->Readable_0.end
+                    && final(self).streams.freed_count() == old(self).streams.freed_count() + 1)),
+                // reset: the sender's code, from the stream's reset state; reported again on every later call
+                Err(ReadError::Reset(code)) => final(self).state == ChunksState::Reset(code) && (old(self).state == ChunksState::Reset(code)
+                    || (old(self).state is Readable && old(self).state->Readable_0.state is ResetRecvd && old(self).state->Readable_0.state->error_code == code
+                        && final(self).streams.freed_count() == old(self).streams.freed_count() + 1)),
+                Err(ReadError::Blocked) => old(self).state is Readable && final(self).state is Readable && final(self).read == old(self).read
+                    && !(old(self).state->Readable_0.state is ResetRecvd),
+            },
+            // terminal states are absorbing
+            old(self).state is Finished ==> res == Ok::<Option<Chunk>, ReadError>(None),
+            (old(self).state is Reset) ==> res == Err::<Option<Chunk>, ReadError>(ReadError::Reset(old(self).state->Reset_0)),
 //@ end
 }
 }
